@@ -16,11 +16,13 @@ MANIFEST = dict(
     text="Lean 4 theorems over a hand model of the shell's snapshot writer and of GeckoSnapshot's regex-table parser "
          "(backtracking matcher, int(..,16), parse_log_file loop): block_roundtrip (every byte list of length >= 1, hence every "
          "1024-byte block, by induction), versions_roundtrip (all version numbers, all 15 shipped pack labels), whole_roundtrip "
-         "(all eleven records through parse_log_file for every SafeName - a decidable predicate whose complement is witnessed: "
-         "name_brackets_fails = D14, name_statv_fails), segment_roundtrip_partial (bytes.__repr__ -> replace -> literal_eval for "
-         "every datagram without both quote characters; the full statement is false today, segment_roundtrip_fails = D13), "
-         "reassemble_any_segmentation_partial (every split of the range into an in-order STATV chain, by induction on the "
-         "segmentation). Ties: regex table / handler order / method bodies / version templates / log format re-extracted from "
+         "(all eleven records through parse_log_file for every SafeName - a decidable predicate: printable ASCII, no "
+         "'STATV..</DATAS>', no handshake text; its complement is witnessed by the two recorded findings name_statv_fails and "
+         "name_handshake_extra_record; brackets are safe since 609eb50: block_regex_needs_closing_bracket), segment_roundtrip "
+         "(FULL since d863da2: bytes.__repr__ -> tokenising quote replacement -> literal_eval is the identity on EVERY byte "
+         "string), reassemble_any_segmentation (FULL: every split of the range into an in-order STATV chain reassembles to the "
+         "range, by induction on the segmentation, no hypothesis on the data). "
+         "Ties: regex table / handler order / method bodies / version templates / log format re-extracted from "
          "the source every run and pinned (source_pinned); differential correspondence of the model against the REAL "
          "GeckoShell.do_snapshot + GeckoCmd.do_logfile + GeckoSnapshot.parse_log_file, against real re.search per expression, "
          "and of pyReprBytes/litEval against CPython EXHAUSTIVELY on all 256 bytes and all 65 536 ordered byte pairs. "
@@ -451,7 +453,7 @@ def run(ctx):
                 if len(text.split("\n")) == 12:
                     op("write " + " ".join([hxs(name), hx(block), stamps] + hdr_fields(hdr, VERSION)), hxs(text), ("write", name))
                 op("parse " + hxs(text), ans, ("parse-written", name))
-                # SafeName => the real round trip works; block clause false => the real parser raises ValueError in _re_data
+                # SafeName => the real round trip works
                 op("safe " + hxs(name), ("ok" if not bad else "fail:" + bad[0]), ("safe", name))
         ctx.cov["writer_cases"] = len(names)
 
@@ -598,11 +600,15 @@ def run(ctx):
             return "bytes:" + hx(s._bytes)
         except ValueError:
             return "raises"
-    dl_alpha = "[]]['',,  00xx1fAaF9\\g-("
+    dl_frag = ["[", "]", "'0x1f'", "'0x0'", "'0xFF'", "'0x100'", "'0x'", "'0xg'", "'1f'", "0x1", ", ", ",", ",\t", ",  ", " ,", " ", "\n",
+               "\t", "\x1f", "x", "'", "]]", "[[", "['0x7'", "'0x7']", ")", "\\"]
     for _ in range(3000 if ctx.quick else 40000):
-        line = "".join(rng.choice(dl_alpha) for _ in range(rng.randrange(0, 14)))
-        if rng.random() < 0.5:
+        line = "".join(rng.choice(dl_frag) for _ in range(rng.randrange(0, 9)))
+        r = rng.random()
+        if r < 0.4:
             line = "x INFO " + line + "\n"
+        elif r < 0.6:
+            line = "x INFO [" + line + "]" + rng.choice(["", "\n", " \n", "\t \n", " x\n", ")\n"])
         try:
             op("dline " + hxs(line), real_dline(line), "dline")
         except Exception as e:  # noqa
@@ -640,10 +646,10 @@ def run(ctx):
                 skipped += 1
                 continue
             if kind == "safe":
-                # implications only: SafeName => real ok ; block clause false => real ValueError in _re_data
+                # implication only: SafeName => the real round trip works
                 safe = "safe:1" in mo
                 okimpl = im == "ok"
-                good = (not safe or okimpl) and ("block:false" not in mo or im == "fail:ValueError:_re_data")
+                good = not safe or okimpl
                 if safe and okimpl:
                     nontrivial.add(("safe-name", meta[i][1]))
             else:
